@@ -1413,7 +1413,17 @@ class TOTP:
         assert label, "from_uri() failed to provide label"
         if not secret:
             raise cls._uri_parse_error("missing 'secret' parameter")
-        kwds = dict(label=label, issuer=issuer, key=secret, format="base32")
+        # NOTE: a parameter omitted from the uri means the KeyUriFormat default
+        #       (6 digits, SHA1, 30 seconds) -- not whatever default cls.using() set up.
+        kwds = dict(
+            label=label,
+            issuer=issuer,
+            key=secret,
+            format="base32",
+            digits=6,
+            alg="sha1",
+            period=30,
+        )
         if digits:
             kwds["digits"] = cls._uri_parse_int(digits, "digits")
         if algorithm:
@@ -1622,6 +1632,11 @@ class TOTP:
         # XXX: could should set changed=True if active wallet is available,
         #      and source wasn't encrypted.
         kwds.pop("last_counter", None)  # extract legacy counter parameter
+        # NOTE: to_dict() omits these when they equal the format's defaults,
+        #       which aren't necessarily the defaults cls.using() set up.
+        kwds.setdefault("alg", "sha1")
+        kwds.setdefault("digits", 6)
+        kwds.setdefault("period", 30)
         return kwds
 
     @staticmethod
